@@ -12,6 +12,7 @@ from . import c01, c06, c07, c10, c11, c12, c02
 ID = 'C09'
 NEED_RACE = True
 SIZES = {'quick': 2500, 'thorough': 80000}
+REQUIRED_EVENTS = ['same_process_evaluations', 'concurrent_evaluations', 'fresh_process_evaluations']
 RULE = ('inputs pooled from the generators of C01 (layer chains), C02 (streams with document-level $match), C06 ($-rich data), C07 (markers), '
         'C10 (references incl. cross-document), C11 (multi-$output), C12 ($repeat incl. named counts) and the directive-rich document generator, '
         'plus C09-specific shapes (root-level $merge of a subtree containing its own key, $replace:true maps that repeat parent values, 20-40 key '
